@@ -19,7 +19,7 @@ RULE = (
     'bump scale, pixel data from a sha256 stream / boundary-value palette / explicit tiled bytes, mips supplied or '
     'left for compute_mipmaps; the VTF is made either with VTF(...) or by VTF.read() of a hand-written RGBA8888 file '
     'with an arbitrary mip count (full chains). non-trivial = non-square or multi-frame/depth/cubemap or a '
-    'reduced-precision format; distinct = sha1 of the descriptor JSON'
+    'reduced-precision format (resave: some frame left unloaded before save() and mipmap_count >= 2); distinct = sha1 of the descriptor JSON'
 )
 ASSUMPTIONS = [
     'sizes are powers of two (the constructor rejects others); cubemaps have depth 1 (constructor contract)',
@@ -299,15 +299,16 @@ class Tex:
     def keys(self, n_mips: int):
         return [(f, s, m) for m in range(n_mips) for f in range(self.frames) for s in range(self.nfaces)]
 
-    def label(self, ctx) -> None:
+    def label(self, ctx, nontrivial: bool = True) -> None:
         sc = shape_class(self.w, self.h)
         ctx.label(f'{self.fmt}|{sc}|7.{self.final_minor}', 'fmt:' + self.fmt, 'shape:' + sc,
                   f'ver:7.{self.final_minor}', 'layout:' + self.layout, 'origin:' + self.origin,
                   'thumb:' + self.thumb, 'mips:' + self.mips_mode)
         if self.save_minor is not None and self.save_minor != self.minor:
             ctx.label('version_override')
-        ctx.nontrivial(sc != 'square' and sc != '1x1' or self.frames > 1 or self.nfaces > 1
-                       or self.fmt not in EXACT_RGBA | EXACT_RGB)
+        if nontrivial:
+            ctx.nontrivial(sc != 'square' and sc != '1x1' or self.frames > 1 or self.nfaces > 1
+                           or self.fmt not in EXACT_RGBA | EXACT_RGB)
 
 
 def get_frame(vtf, tex: Tex, key):
@@ -330,8 +331,21 @@ def frame_keyset(vtf):
     return sorted(res)
 
 
-def handmade_file(tex: Tex, n_mips: int, data: dict, thumb: bytes) -> bytes:
-    """Write a VTF (RGBA8888 main image) by hand, from the published file layout, independent of VTF.save()."""
+# published VTF image format numbers and bytes per pixel of the uncompressed formats
+FORMAT_INDEX = {'RGBA8888': 0, 'ABGR8888': 1, 'RGB888': 2, 'BGR888': 3, 'RGB565': 4, 'I8': 5, 'IA88': 6, 'A8': 8,
+                'RGB888_BLUESCREEN': 9, 'BGR888_BLUESCREEN': 10, 'ARGB8888': 11, 'BGRA8888': 12, 'BGRX8888': 16,
+                'BGR565': 17, 'BGRX5551': 18, 'BGRA4444': 19, 'BGRA5551': 21, 'UV88': 22, 'UVWQ8888': 23, 'UVLX8888': 26}
+BPP = {'RGBA8888': 4, 'ABGR8888': 4, 'ARGB8888': 4, 'BGRA8888': 4, 'BGRX8888': 4, 'UVWQ8888': 4, 'UVLX8888': 4,
+       'RGB888': 3, 'BGR888': 3, 'RGB888_BLUESCREEN': 3, 'BGR888_BLUESCREEN': 3, 'RGB565': 2, 'BGR565': 2,
+       'BGRX5551': 2, 'BGRA4444': 2, 'BGRA5551': 2, 'IA88': 2, 'UV88': 2, 'I8': 1, 'A8': 1, 'NONE': 0}
+
+
+def handmade_file(tex: Tex, n_mips: int, data: dict, thumb: bytes, fmt_index: int = 0) -> bytes:
+    """Write a VTF by hand, from the published file layout, independent of VTF.save().
+
+    `data` holds the raw stored bytes of every frame in format number `fmt_index` (default RGBA8888); the
+    thumbnail, if any, is RGBA8888.
+    """
     minor = tex.minor
     n_res = 2
     header_size = 80 + (8 * n_res if minor >= 3 else 0)
@@ -341,7 +355,7 @@ def handmade_file(tex: Tex, n_mips: int, data: dict, thumb: bytes) -> bytes:
     out += struct.pack('<II', 7, minor)
     out += struct.pack('<I', header_size)
     out += struct.pack('<HHIHH4x3f4xfiBiBB', tex.w, tex.h, tex.flags, tex.frames, tex.first_frame,
-                       tex.ref[0], tex.ref[1], tex.ref[2], tex.bump, 0, n_mips, low_fmt, tw, th)
+                       tex.ref[0], tex.ref[1], tex.ref[2], tex.bump, fmt_index, n_mips, low_fmt, tw, th)
     out += struct.pack('<H', tex.depth)
     if minor >= 3:
         out += bytes(3) + struct.pack('<I', n_res) + bytes(8)
@@ -944,6 +958,115 @@ def execute_mipmaps(desc, ctx):
                                          f'channel {c} = {got}, parents sum {tot} over {cnt} (mean {tot / cnt:.2f})')
 
 
+# ------------------------------------------------------------------ sub-check: resave (read -> save without load)
+
+RESAVE_FORMATS = [f for f in SAVE_FORMATS if f not in FMT_565]   # 565: open finding fmt565_rb_swapped (pixels)
+ACCESS_HOW = ['load', 'pixel', 'buffer', 'dims']
+
+
+def resave_strategy(tier):
+    access = st.one_of(
+        st.just({'kind': 'none', 'touch': []}),
+        st.fixed_dictionaries({'kind': st.just('subset'), 'touch': st.lists(
+            st.tuples(st.integers(0, 200), st.sampled_from(ACCESS_HOW)).map(list), min_size=1, max_size=6)}),
+        st.just({'kind': 'all', 'touch': []}),
+    )
+    return st.fixed_dictionaries({
+        'tex': tex_strategy(tier, fmts=RESAVE_FORMATS, thumbs=['NONE', 'RGBA8888']),
+        'access': access,
+    })
+
+
+def execute_resave(desc, ctx):
+    """A file that is read and saved again - whatever was or was not looked at in between - keeps every stored mip."""
+    from srctools.vtf import VTF, VTFFlags, ImageFormats
+    tex = Tex(dict(desc['tex'], origin='file'))
+    tex.label(ctx, nontrivial=False)   # own rule: something left unloaded and at least two mips
+    n = tex.file_mips
+    keys = tex.keys(n)
+    data = {}
+    for key in keys:      # independent arbitrary data in EVERY mip level (not averages of the parent)
+        mw, mh = mip_dims(tex.w, tex.h, key[2])
+        data[key] = make_pixels(tex.pix, '%d.%d.%d' % key, mw * mh)[:BPP[tex.fmt] * mw * mh]
+    tw, th = tex.thumb_dims
+    thumb = make_pixels({'kind': 'seed', 'seed': tex.t.get('thumb_seed') or 0}, 'thumb', tw * th) if tex.thumb != 'NONE' else b''
+    raw0 = handmade_file(tex, n, data, thumb, FORMAT_INDEX[tex.fmt])
+    # reference: the pixels decoded from the original file
+    orig = VTF.read(io.BytesIO(raw0))
+    orig.load()
+    if frame_keyset(orig) != sorted(keys):
+        raise HarnessError('hand-written VTF was not read back with the structure it was written with')
+    want = {key: frame_bytes(get_frame(orig, tex, key)) for key in keys}
+    if tex.fmt in EXACT_RGBA and any(want[k] != data[k] for k in keys) and tex.fmt in ('RGBA8888', 'UVWQ8888', 'UVLX8888'):
+        raise HarnessError('hand-written RGBA file decoded differently from what was written')
+    want_thumb = frame_bytes(orig._low_res) if tex.thumb != 'NONE' else None
+    regen = tex.thumb != 'NONE' and any(
+        (mip_dims(tex.w, tex.h, m)[0] // 2, mip_dims(tex.w, tex.h, m)[1] // 2) == (tw, th) for m in range(n))
+
+    v = VTF.read(io.BytesIO(raw0))
+    acc = desc['access']
+    touched = set()
+    if acc['kind'] == 'all':
+        v.load()
+        touched = set(keys)
+    elif acc['kind'] == 'subset':
+        for idx, how in acc['touch']:
+            key = keys[idx % len(keys)]
+            fr = get_frame(v, tex, key)
+            if how == 'load':
+                fr.load()
+            elif how == 'pixel':
+                fr[0, 0]
+            elif how == 'buffer':
+                memoryview(fr).release()
+            else:
+                (fr.width, fr.height)    # looks at the frame object only: stays unloaded
+                continue
+            touched.add(key)
+    partial = len(touched) < len(keys)
+    ctx.label('access:' + acc['kind'], 'partial' if partial else 'all_loaded', f'nmips:{min(n, 4)}',
+              'reduced' if tex.fmt not in EXACT_RGBA | EXACT_RGB else 'exact')
+    ctx.nontrivial(partial and n >= 2)
+    if partial and n >= 2:
+        ctx.label('unloaded_mips')
+
+    raw1, r = save_and_read(tex, v)
+    facts = dict(access=acc['kind'], fmt=tex.fmt)
+    for who, obj in (('read back after resave', r), ('the object that was saved (after load())', v)):
+        obj.load()
+        ctx.check(frame_keyset(obj) == sorted(keys), 'resave_keys', f'{who}: frame table changed', **facts)
+        for key in keys:
+            got = frame_bytes(get_frame(obj, tex, key))
+            if got != want[key]:
+                mw = mip_dims(tex.w, tex.h, key[2])[0]
+                i = next(i for i in range(0, len(got), 4) if got[i:i + 4] != want[key][i:i + 4]) // 4
+                ctx.fail('resave_pixels', f'{tex.fmt} {tex.w}x{tex.h}, {n} mips, access={acc["kind"]} touched={sorted(touched)}: '
+                         f'{who}: frame {key} (frame, face, mip) pixel (x={i % mw}, y={i // mw}) = {tuple(got[4 * i:4 * i + 4])}, '
+                         f'the original file decodes to {tuple(want[key][4 * i:4 * i + 4])}', mip=key[2], **facts)
+        if want_thumb is not None and not regen:
+            ctx.check(frame_bytes(obj._low_res) == want_thumb, 'resave_thumb', f'{who}: thumbnail differs from the original file', **facts)
+    wantm = {
+        'width': tex.w, 'height': tex.h, 'depth': tex.depth, 'frame_count': tex.frames, 'mipmap_count': n,
+        'flags': VTFFlags(tex.flags), 'format': ImageFormats[tex.fmt],
+        'low_format': ImageFormats[tex.thumb], 'version': (7, tex.final_minor),
+        'first_frame_index': tex.first_frame, 'bumpmap_scale': tex.bump,
+    }
+    for name, w_ in wantm.items():
+        ctx.check(getattr(r, name) == w_, 'resave_meta_' + name, f'{name}: {getattr(r, name)!r} after resave, file had {w_!r}', **facts)
+    ctx.check([r.reflectivity.x, r.reflectivity.y, r.reflectivity.z] == tex.ref, 'resave_meta_reflectivity',
+              f'reflectivity {r.reflectivity!r} after resave, file had {tex.ref!r}', **facts)
+    # second resave (again without touching anything): byte-identical
+    if not regen:
+        r1 = VTF.read(io.BytesIO(raw1))
+        buf = io.BytesIO()
+        r1.save(buf)
+        raw2 = buf.getvalue()
+        ctx.check(raw2 == raw1, 'resave_bytes', f'second read->save gives different bytes (len {len(raw1)} -> {len(raw2)}, first '
+                  f'difference at offset {next((i for i in range(min(len(raw1), len(raw2))) if raw1[i] != raw2[i]), -1)})', **facts)
+    else:
+        ctx.label('thumb_regenerated')
+
+
 # ------------------------------------------------------------------ registration
 
 def m_fmt565_rb_swapped(desc, clause, facts):
@@ -977,6 +1100,9 @@ SUBCHECKS = [
         must_hit=('nseq:3', 'sheetver:0', 'sheetver:1', 'sheetver:None')),
     Sub('bounds', execute_bounds, strategy=bounds_strategy, quick=2000, thorough=30000, floor=300,
         must_hit=('src:ctor', 'src:read', 'src:read_mip', 'get_inside', 'frame:1xN', 'frame:wide', 'frame:tall')),
+    Sub('resave', execute_resave, strategy=resave_strategy, quick=1600, thorough=16000, floor=300,
+        must_hit=('access:none', 'access:subset', 'access:all', 'unloaded_mips', 'reduced', 'exact', 'nmips:4')
+        + tuple('fmt:' + f for f in RESAVE_FORMATS)),
     Sub('mipmaps', execute_mipmaps, strategy=mip_strategy, quick=2000, thorough=20000, floor=300,
         must_hit=('parents:2x2', 'parents:2x1', 'parents:1x2', 'origin:ctor', 'origin:file') + _LAYOUTS),
 ]
